@@ -71,16 +71,23 @@ def gen_c12_case(rng: random.Random):
             "emf": rng.choice([10**6, 10**6, 1, 10**3])}
 
     def weights(keys, universe):
-        mode = rng.choice(["equal", "exact", "superset", "unsorted", "unnormalised"])
+        mode = rng.choice(["equal", "exact", "superset", "unsorted", "unnormalised", "tiny", "nearly_normalised"])
         if mode == "equal":
             return None, mode
         ks = list(keys)
         if mode == "superset":
             ks = list(dict.fromkeys(ks + rng.sample(universe, rng.randint(1, max(1, len(universe) // 2)))))
         w = {k: rng.choice([1.0, 2.0, 0.5, 7.0, 0.25, 1e-4, 3e-6]) for k in ks}
-        if mode != "unnormalised":
+        if mode == "tiny":
+            # weights of very small magnitude (only their ratios matter)
+            w = {k: v * 1e-9 for k, v in w.items()}
+        elif mode != "unnormalised":
             tot = sum(w.values())
             w = {k: v / tot for k, v in w.items()}
+        if mode == "nearly_normalised":
+            # shares written with seven decimals: they add up to 1 only to within 1e-6; keys exactly the affected set, in order
+            w = {k: float(f"{v:.7f}") for k, v in w.items() if v >= 1e-6} if all(v >= 1e-6 for v in w.values()) else w
+            return dict(w), mode
         items = list(w.items())
         rng.shuffle(items)
         return dict(items), mode
@@ -306,6 +313,31 @@ def malformed_cases():
     for a in ("x", "Z", "Y", "A"):
         cases.append((f"table without {a}", table_missing(a)))
 
+    def table_short(attr, axis):
+        def f():
+            io = scen.build_table(tb)
+            df = getattr(io, attr)
+            setattr(io, attr, df.drop(index=df.index[1]) if axis == 0 else df.drop(columns=df.columns[1]))
+            ARIOPsiModel(io)
+        return f
+    for a, ax, what in (("Y", 0, "final demand lacks the row of an industry"), ("Z", 0, "Z lacks the row of an industry"),
+                        ("Z", 1, "Z lacks the column of an industry"), ("x", 0, "output lacks an industry")):
+        cases.append((f"incomplete table: {what}", table_short(a, ax)))
+
+    def table_nan(attr):
+        def f():
+            io = scen.build_table(tb)
+            df = getattr(io, attr).copy()
+            df.iloc[1, 0] = float("nan")
+            setattr(io, attr, df)
+            sim = Simulation(ARIOPsiModel(io), n_temporal_units_to_sim=5)
+            quiet_loop(sim)
+            if not np.isfinite(sim.final_demand_unmet.to_numpy(dtype=float)[:5]).all() or not np.isfinite(sim.production_realised.to_numpy(dtype=float)[:5]).all():
+                return          # accepted, and the run records NaN without reporting anything: counted as accepted
+        return f
+    for a in ("Y", "Z", "x"):
+        cases.append((f"table with a missing (NaN) entry in {a}", table_nan(a)))
+
     def inconsistent_A():
         io = scen.build_table(tb)
         io.A = io.A * 1.5
@@ -348,6 +380,8 @@ def malformed_cases():
     cases.append(("unknown sector", ev(impact={"rA|nosuch": 5.0})))
     K = corpus.capital_of(tb, cfg)
     cases.append(("impact above the capital stock", ev(impact={"rA|agri": float(K[0] * 1.5)})))
+    cases.append(("household impact in an unknown region", ev(house={"rZ|gov": 3.0})))
+    cases.append(("household impact on an unknown final-demand category", ev(house={"rA|nosuchcat": 3.0})))
 
     def reb(**over):
         def f():
@@ -640,6 +674,65 @@ PHASE_OF = {"inputs_stocks": "events", "overproduction": "overprod", "rebuild_de
             "final_demand_unmet": "distribution", "rebuild_prod": "distribution"}
 
 
+def fresh_rows(tr):
+    """the four records that are row sums of a matrix, recomputed from the matrix itself (not from the model's cached
+    totals): {record: {t: vector}}"""
+    out = {r: {} for r in ("rebuild_demand", "final_demand", "intermediate_demand", "rebuild_prod")}
+
+    def rs(mat, n):
+        if mat is None or not np.size(mat):
+            return np.zeros(n)
+        return np.asarray(mat, dtype=float).reshape(n, -1).sum(axis=1)
+    for st in tr.steps:
+        t = st["t"]
+        ph = st["phases"]
+        e_prod = ph.get("production")
+        if e_prod and e_prod["pre"] is not None:
+            e = e_prod["pre"]["econ"]
+            n = e["prod"].shape[0]
+            out["rebuild_demand"][t] = rs(e["reb"], n)
+            out["final_demand"][t] = rs(e["fd"], n)
+            out["intermediate_demand"][t] = rs(e["orders"], n)
+        d = ph.get("distribute")
+        if d and d["post"] is not None and not d.get("exc"):
+            e = d["post"]["econ"]
+            out["rebuild_prod"][t] = rs(e["rebProd"], e["prod"].shape[0])
+    return out
+
+
+def records_match_trace(tr, pid, names):
+    """what the simulation reports (public record accessors, in memory) is the model's value at the phase of each
+    simulated step — for the records a property is about"""
+    from harness.oracles import viol as oviol
+    out = []
+    sim = getattr(tr, "sim", None)
+    if sim is None or not tr.steps:
+        return out
+    exp, fresh = expected_rows(tr), fresh_rows(tr)
+    for r in names:
+        try:
+            arr = getattr(sim, r).to_numpy(dtype=float)
+        except Exception as e:
+            out.append(oviol(pid, 0, f"record {r} cannot be read: {type(e).__name__}: {str(e)[:100]}"))
+            continue
+        src = fresh[r] if r in fresh else exp[r]
+        for t, want in src.items():
+            if want is None or t >= arr.shape[0]:
+                continue
+            w = np.asarray(want, dtype=float).ravel()
+            row = arr[t].ravel()
+            if row.shape != w.shape:
+                continue
+            sc_ = float(np.nanmax(np.abs(w))) if w.size and np.isfinite(w).any() else 0.0
+            ok = np.allclose(row, w, rtol=1e-12, atol=1e-12 * sc_ + 1e-300, equal_nan=True)
+            if not ok:
+                j = int(np.nanargmax(np.abs(np.where(np.isfinite(row - w), row - w, np.inf))))
+                out.append(oviol(pid, int(t), f"record {r}: the value reported for step {t} is not the model's value at that step",
+                                 cell=j, reported=float(row[j]), model=float(w[j])))
+                break
+    return out
+
+
 def expected_rows(tr):
     """value of every record at its phase of every simulated step, from the captured phase snapshots"""
     out = {r: {} for r in REC_NAMES}
@@ -732,6 +825,7 @@ def explore_c16(tier, seed):
                     if sim._files_to_record:
                         sim._flush_memmaps()
                 exp = expected_rows(tr)
+                fresh = fresh_rows(tr)
                 k = len([st for st in tr.steps if st["res"] == 0])
                 ends = ["ok"] * k
                 if tr.crashed:
@@ -786,6 +880,11 @@ def explore_c16(tier, seed):
                                 same = np.array_equal(row.astype(float), w)
                             else:
                                 same = np.array_equal(row, w, equal_nan=True)
+                            if same and r in fresh and t in fresh[r]:
+                                # ... and that value is the row sum of the matrix it summarises (not only the model's cached total)
+                                wf = np.asarray(fresh[r][t], dtype=float).reshape(row.shape)
+                                scf = float(np.max(np.abs(wf))) if wf.size else 0.0
+                                same = bool(np.allclose(row, wf, rtol=1e-12, atol=1e-12 * scf + 1e-300))
                             if not same:
                                 viol(res, "C16", f"row {t} of record {r} differs from the model's value at its phase of step {t}",
                                      case={"saved": saved, "stocks": reg, "ends": ends}, got=row.ravel()[:4].tolist(), want=w.ravel()[:4].tolist())
@@ -1078,6 +1177,28 @@ def explore_c17(tier, seed):
             shutil.rmtree(shared, ignore_errors=True)
         except Exception as e:
             viol(res, "C17", f"two simulations sharing an output directory under different result names cannot be built / run: {type(e).__name__}: {str(e)[:120]}")
+        # the periodic equilibrium statuses (`sim.equi`, saved as jsons/equilibrium_checks.json) belong to each simulation:
+        # a run long enough to be checked (every 182 temporal units), then another one whose status differs
+        if i == 0:
+            try:
+                small = scen.gen_scenario(s + 5, "eventfree", T=190, m=1, n=2, k=1)
+                small["model"]["dt"] = 1
+                sim_a = scen.build_sim(copy.deepcopy(small))
+                quiet_loop(sim_a)
+                equi_a = copy.deepcopy(sim_a.equi)
+                other = copy.deepcopy(small)
+                other["events"] = [corpus.reb_event(small["table"], small["model"], inds=(("rA", "agri"),), frac=0.3, occ=170, dur=5, tau=60,
+                                                    sectors={"build": 1.0})] if small["table"]["n"] >= 2 else []
+                sim_b = scen.build_sim(other)
+                quiet_loop(sim_b)
+                res["paired_runs"] += 1
+                if sim_a.equi != equi_a:
+                    viol(res, "C17", "the equilibrium statuses reported by a finished simulation (sim.equi) changed when another simulation ran",
+                         case={"before": str(equi_a)[:300], "after": str(sim_a.equi)[:300]})
+                if sim_b.equi is sim_a.equi:
+                    viol(res, "C17", "two simulations share one `equi` dictionary")
+            except Exception as e:
+                viol(res, "C17", f"equilibrium-status isolation check failed to run: {type(e).__name__}: {str(e)[:150]}")
         # stocks record of the simulations that registered it
         for j, sc in enumerate(scs):
             if sims[j] is not None and sc["sim"].get("register_stocks"):
@@ -1201,9 +1322,9 @@ def build_model_with_caller_objects(tb, cfg, io):
 def build_event_with(e, imp, house, rs):
     if e["type"] == "arbitrary":
         return bev.from_series(imp, event_type="arbitrary", occurrence=e["occ"], duration=e["dur"], recovery_tau=e["recovery_tau"],
-                               recovery_function=e["curve"])
+                               recovery_function=scen.curve_arg(e["curve"]))
     if e["type"] == "rebuild":
         return bev.from_series(imp, event_type="rebuild", occurrence=e["occ"], duration=e["dur"], event_monetary_factor=e["emf"],
                                households_impact=house, rebuild_tau=e["rebuild_tau"], rebuilding_sectors=rs, rebuilding_factor=e["factor"])
     return bev.from_series(imp, event_type="recovery", occurrence=e["occ"], duration=e["dur"], event_monetary_factor=e["emf"],
-                           households_impact=house, recovery_tau=e["recovery_tau"], recovery_function=e["curve"])
+                           households_impact=house, recovery_tau=e["recovery_tau"], recovery_function=scen.curve_arg(e["curve"]))
